@@ -129,6 +129,8 @@ class SemFlow(Flow):
     def num(v):
         return z3.IntVal(v[1]) if v[0] == "int" else v[1]
 
+    STRUCTURED = ()      # value kinds a subclass wants kept apart when an inlined callee returns on several paths (the caller forks)
+
     WIDTHS = {"u8": 8, "u16": 16, "u32": 32, "u64": 64, "usize": 64, "i8": 8, "i16": 16, "i32": 32, "i64": 64, "isize": 64}
 
     def project(self, P, v, p):
@@ -426,7 +428,7 @@ class SemFlow(Flow):
 
     def inline(self, P, fn, args):
         """execute `fn` on `args` from the current path; returns its result value (paths merged by implications)"""
-        sub = SemFlow(self.fns, fn, self.models, self.vidx, counter=self.ctr, max_steps=self.max_steps, prune=self.prune)
+        sub = type(self)(self.fns, fn, self.models, self.vidx, counter=self.ctr, max_steps=self.max_steps, prune=self.prune)     # props may subclass (extra operand forms)
         sub.inlined = self.inlined
         sub.named_consts = self.named_consts
         sub.notes = self.notes
@@ -472,6 +474,8 @@ class SemFlow(Flow):
                 raise Unsupported("inlined function returns a reference to its own local")
             return rv
         try:
+            if any(isinstance(rv, tuple) and rv and rv[0] in self.STRUCTURED for _, rv, _ in rets):
+                raise Unsupported("structured result")
             terms = [self.term(rv) for _, rv, _ in rets]
         except Unsupported:
             # structured results (aggregates holding references): the caller's path forks, one continuation per returning path
